@@ -547,3 +547,134 @@ def confirm_on_legal_history(doc: dict, res: dict, execute_full, private_ops):
         res["violation"]["confirmed_without_private_scribbles"] = True
         res["events"].append(["confirmed-on-legal-history"])
     return res
+
+
+# --------------------------------------------------------------------------- caller threads
+
+class Preempt:
+    """Caller threads under a scheduler that decides every switch.
+
+    Bodies run in real threads, but only the one holding the baton runs.
+    Pre-emption points are line events (sys.settrace) in Python code of the
+    repository - the first LINES line events of every function invocation -
+    identified as (function name, invocation index in that thread, line index).
+    `profile` runs a body alone and returns its result together with the
+    table of points it passed; `run` runs several bodies at once and switches
+    to the next thread whenever the running thread reaches one of ITS points.
+    Compiled (numba) code produces no events and is never interrupted: what
+    is explored are the interleavings of the Python-level steps.
+    """
+
+    LINES = 12
+
+    def __init__(self, roots: tuple) -> None:
+        self.roots = tuple(roots)
+
+    def _is_repo(self, filename: str) -> bool:
+        return any(r in filename for r in self.roots)
+
+    def _tracer(self, on_point: Callable, table: dict | None):
+        counters: dict = {}
+
+        def global_trace(frame, event, arg):
+            if event != "call" or not self._is_repo(frame.f_code.co_filename):
+                return None
+            func = frame.f_code.co_name
+            inv = counters.get(func, 0)
+            counters[func] = inv + 1
+            st = {"line": 0}
+            if table is not None:
+                table.setdefault(func, []).append(0)
+
+            def local_trace(frame2, event2, arg2):
+                if event2 == "line" and st["line"] < self.LINES:
+                    st["line"] += 1
+                    if table is not None:
+                        table[func][inv] = st["line"]
+                    on_point((func, inv, st["line"]))
+                return local_trace
+            return local_trace
+        return global_trace
+
+    def profile(self, body: Callable) -> tuple:
+        import sys
+        table: dict = {}
+        old = sys.gettrace()
+        sys.settrace(self._tracer(lambda p: None, table))
+        try:
+            out = body()
+        finally:
+            sys.settrace(old)
+        return out, table
+
+    @staticmethod
+    def pick_points(table: dict, picks: list) -> set:
+        """Map seeded numbers in [0,1)^3 to points of a profile: a function
+        first (so that rarely called functions are hit as often as hot
+        ones), then one of its invocations, then a line of it."""
+        pts = set()
+        funcs = sorted(table)
+        if not funcs:
+            return pts
+        for u, v, w in picks:
+            f = funcs[min(len(funcs) - 1, int(u * len(funcs)))]
+            invs = table[f]
+            i = min(len(invs) - 1, int(v * len(invs)))
+            n = max(1, invs[i])
+            pts.add((f, i, 1 + min(n - 1, int(w * n))))
+        return pts
+
+    def run(self, bodies: list, points: list, cap: float = 120.0) -> tuple:
+        """Returns (results, number of switches); an exception raised by a
+        body is returned in its place."""
+        import sys
+        import threading
+        n = len(bodies)
+        cv = threading.Condition()
+        state = {"turn": 0, "alive": set(range(n)), "switches": 0}
+        out: list = [None] * n
+
+        def wait_for(me: int) -> None:
+            while state["turn"] != me:
+                if not cv.wait(timeout=cap):
+                    raise RuntimeError("scheduler lost the baton: harness bug")
+
+        def hand_over(me: int) -> None:
+            others = sorted(state["alive"] - {me})
+            if others:
+                nxt = next((o for o in others if o > me), others[0])
+                state["switches"] += 1
+                state["turn"] = nxt
+                cv.notify_all()
+                wait_for(me)
+
+        def runner(i: int) -> None:
+            def on_point(p):
+                if p in points[i]:
+                    with cv:
+                        hand_over(i)
+            try:
+                with cv:
+                    wait_for(i)
+                sys.settrace(self._tracer(on_point, None))
+                try:
+                    out[i] = bodies[i]()
+                finally:
+                    sys.settrace(None)
+            except BaseException as exc:  # noqa: BLE001
+                out[i] = exc
+            finally:
+                with cv:
+                    state["alive"].discard(i)
+                    if state["alive"] and state["turn"] == i:
+                        state["turn"] = min(state["alive"])
+                    cv.notify_all()
+        threads = [threading.Thread(target=runner, args=(i, ), daemon=True)
+                   for i in range(n)]
+        for t in threads:
+            t.start()
+        for t in threads:
+            t.join(cap)
+            if t.is_alive():
+                raise RuntimeError("a scheduled thread did not finish")
+        return out, state["switches"]
